@@ -13,6 +13,9 @@ package internal
 //@   ensures lt: lexlt(s1, s2) ==> result == -1
 //@   ensures gt: lexlt(s2, s1) ==> result == 1
 //@   modifies nothing
+//@   loop 0
+//@     invariant c == 0 && 0 <= i && i <= limit && limit <= len(s1) && limit <= len(s2) && (limit == len(s1) || limit == len(s2))
+//@     invariant forall k int :: 0 <= k && k < i ==> at(s1, k) == at(s2, k)
 
 //@ func IsMaxMemoryExceeded props C08
 //@   ensures result == (maxMemory != 0 && uint64(memUsed) >= maxMemory)
